@@ -416,3 +416,87 @@ func unhashable() {
 	}())
 }
 `
+
+// ConstKeyProgram: keys written as constant expressions (which the compiler may fold into the
+// generated code) must address the same entries as the same keys held in variables, for every
+// operation form: entries made through variables are read / tested / updated / deleted through
+// constants and the other way round (assignment and map literal).
+func ConstKeyProgram() diffrun.Program {
+	fams := []struct{ name, typ string; keys []string }{
+		{"string", "string", []string{`""`, `"a"`, `"café"`, `"日本"`, `"naïve"`, `"\xff\xfe"`, `"é"`, `"é"`, `"😀"`, `"a\x00b"`, `"$"`, `"\\"`, `"\""`, `"tab\t"`, `"caf" + "é"`, `"ÿ"`, `"\xc3\xa9"`, `"ÿ"`, `"\x7f"`, `"\u0080"`}},
+		{"mystr", "MyStr", []string{`"x"`, `"é"`, `MyStr("日")`, `"\xe9"`, `cstr`, `cstr + "ß"`}},
+		{"iface", "interface{}", []string{`1`, `int8(1)`, `"1"`, `1.0`, `'1'`, `MyStr("1")`, `"é"`, `MyStr("é")`, `true`, `2.5`, `float32(2.5)`, `int64(1)`, `uint64(1)`, `int64(1) << 40`, `cstr`, `int64(cnum)`, `nil`, `[1]string{"é"}`, `struct{ s string }{"é"}`, `'é'`, `complex(1, 0)`}},
+		{"float", "float64", []string{`0.0`, `1`, `0.1`, `1e100`, `-1.5`, `1 << 60`, `cflt`, `1.0 / 3`}},
+		{"int64", "int64", []string{`0`, `-1`, `1 << 40`, `-1 << 63`, `1<<63 - 1`, `cnum`, `'x'`}},
+		{"rune", "rune", []string{`'a'`, `'é'`, `'😀'`, `0`, `-1`, `0x10ffff`}},
+		{"array", "[2]string", []string{`[2]string{"a", "b"}`, `[2]string{"é", ""}`, `[2]string{"", "é"}`, `[2]string{1: "日"}`, `[...]string{"$", "\\"}`}},
+		{"struct", "pk", []string{`pk{"é", 1}`, `pk{"", 0}`, `pk{s: "日本"}`, `pk{"$", 36}`, `pk{n: 2, s: "\\"}`}},
+		{"bool", "bool", []string{`true`, `false`, `1 < 2`, `cstr == "x"`}},
+		{"complex", "complex128", []string{`0`, `1i`, `1 + 2i`, `complex(1, 2)`, `2.5`}},
+	}
+	var b strings.Builder
+	b.WriteString(`package main
+
+type MyStr string
+type pk struct {
+	s string
+	n Int
+}
+
+const cstr = "kéy"
+const cnum = 1 << 33
+const cflt = 2.5
+
+func o(id, s string) { println("C15/constkey/"+id, s) }
+
+func main() {
+`)
+	for _, f := range fams {
+		fmt.Fprintf(&b, "\t{\n\t\t// %s: entries made through variables, accessed through constants\n\t\tm := map[%s]Int{}\n\t\tvar k %s\n", f.name, f.typ, f.typ)
+		for i, k := range f.keys {
+			fmt.Fprintf(&b, "\t\tk = %s\n\t\tm[k] += %d\n", k, 1<<uint(i%20))
+		}
+		fmt.Fprintf(&b, "\t\tn0 := len(m)\n\t\tres := \"\"\n")
+		for _, k := range f.keys {
+			fmt.Fprintf(&b, "\t\t{\n\t\t\tv := m[%s]\n\t\t\t_, ok := m[%s]\n\t\t\tm[%s] += 1 << 21\n\t\t\tk = %s\n\t\t\tw := m[k]\n\t\t\tdelete(m, %s)\n\t\t\t_, ok2 := m[k]\n\t\t\tres += itoa(int64(v)) + btoa(ok) + itoa(int64(w)) + btoa(ok2) + itoa(int64(len(m))) + \";\"\n\t\t}\n", k, k, k, k, k)
+		}
+		fmt.Fprintf(&b, "\t\to(%q, itoa(int64(n0))+\":\"+res)\n", f.name+"/var-then-const")
+		// entries made through constants (assignment and literal), accessed through variables
+		fmt.Fprintf(&b, "\t\tm2 := map[%s]Int{}\n", f.typ)
+		for i, k := range f.keys {
+			fmt.Fprintf(&b, "\t\tm2[%s] += %d\n", k, 1<<uint(i%20))
+		}
+		fmt.Fprintf(&b, "\t\tres = itoa(int64(len(m2))) + \":\"\n")
+		for _, k := range f.keys {
+			fmt.Fprintf(&b, "\t\tk = %s\n\t\tres += itoa(int64(m2[k])) + \";\"\n\t\tdelete(m2, k)\n\t\tres += itoa(int64(len(m2))) + \";\"\n", k)
+		}
+		fmt.Fprintf(&b, "\t\to(%q, res)\n\t}\n", f.name+"/const-then-var")
+	}
+	// map literals with constant keys (no duplicates allowed by the compiler for constants of basic types)
+	b.WriteString(`	{
+		lit := map[string]Int{"a": 1, "café": 2, "日本": 3, "\xff\xfe": 4, "é": 5, "é": 6, "$": 7, "\\": 8, cstr: 9}
+		ks := []string{"a", "café", "日本", "\xff\xfe", "é", "é", "$", "\\", "kéy", "missing"}
+		res := itoa(int64(len(lit))) + ":"
+		for _, k := range ks {
+			v, ok := lit[k]
+			res += itoa(int64(v)) + btoa(ok)
+		}
+		il := map[interface{}]Int{1: 1, int8(1): 2, "1": 3, 1.0: 4, '1': 5, MyStr("1"): 6, "é": 7, true: 8, nil: 9}
+		var iks = []interface{}{1, int8(1), "1", 1.0, '1', MyStr("1"), "é", true, nil, int16(1), float32(1)}
+		res += "|" + itoa(int64(len(il))) + ":"
+		for _, k := range iks {
+			v, ok := il[k]
+			res += itoa(int64(v)) + btoa(ok)
+		}
+		switch k := "café"; k {
+		case "cafe":
+			res += "|plain"
+		case "caf" + "é":
+			res += "|accent"
+		}
+		o("literals", res)
+	}
+}
+`)
+	return diffrun.Program{Name: "c15_constkeys", Files: map[string]string{"main.go": b.String()}}
+}
